@@ -47,6 +47,33 @@ W void w_install_handlers() { install_handlers(); }
     W ulong w_##P##_max_array_size(void* o) { return P##_tr::max_array_size(*static_cast<T*>(o)); } \
     W ulong w_##P##_max_alignment(void* o) { return P##_tr::max_alignment(*static_cast<T*>(o)); }
 
+// allocator_traits used directly on leaves that are not composable: TR = the Allocator type the traits are instantiated
+// with, ST = the state type they operate on (allocator_traits<TR>::allocator_type); the try_ wrappers exist only so that
+// every composition has the same interface
+#define TRAITS_NC(P, TR, ST)                                                                        \
+    using P##_tr = allocator_traits<TR>;                                                            \
+    static_assert(std::is_same<P##_tr::allocator_type, ST>::value, "state type");                   \
+    W ulong w_##P##_sizeof() { return sizeof(ST); }                                                 \
+    W void w_##P##_dtor(void* o) { static_cast<ST*>(o)->~ST(); }                                   \
+    W void* w_##P##_allocate_node(void* o, ulong s, ulong a) { VTRY return P##_tr::allocate_node(*static_cast<ST*>(o), s, a); VCATCH(nullptr) } \
+    W void* w_##P##_allocate_array(void* o, ulong c, ulong s, ulong a) { VTRY return P##_tr::allocate_array(*static_cast<ST*>(o), c, s, a); VCATCH(nullptr) } \
+    W void w_##P##_deallocate_node(void* o, void* p, ulong s, ulong a) { P##_tr::deallocate_node(*static_cast<ST*>(o), p, s, a); } \
+    W void w_##P##_deallocate_array(void* o, void* p, ulong c, ulong s, ulong a) { P##_tr::deallocate_array(*static_cast<ST*>(o), p, c, s, a); } \
+    W void* w_##P##_try_allocate_node(void*, ulong, ulong) { return nullptr; }                      \
+    W void* w_##P##_try_allocate_array(void*, ulong, ulong, ulong) { return nullptr; }              \
+    W ulong w_##P##_try_deallocate_node(void*, void*, ulong, ulong) { return 0; }                   \
+    W ulong w_##P##_try_deallocate_array(void*, void*, ulong, ulong, ulong) { return 0; }           \
+    W ulong w_##P##_max_node_size(void* o) { return P##_tr::max_node_size(*static_cast<ST*>(o)); } \
+    W ulong w_##P##_max_array_size(void* o) { return P##_tr::max_array_size(*static_cast<ST*>(o)); } \
+    W ulong w_##P##_max_alignment(void* o) { return P##_tr::max_alignment(*static_cast<ST*>(o)); }
+
+// 0 allocator_traits defaults: a minimal RawAllocator behind allocator_adapter, and a standard-library style Allocator
+// (allocator_traits<stdrec<long>> rebinds to stdrec<char> and forwards byte counts)
+using t_min = allocator_adapter<minrec>;
+TRAITS_NC(min, t_min, t_min)
+W void w_min_ctor(void* o, void* leaf, ulong arg) { (void)leaf; (void)arg; ::new (o) t_min(minrec(1)); }
+TRAITS_NC(stdl, stdrec<long>, stdrec<char>)
+W void w_stdl_ctor(void* o, void* leaf, ulong arg) { (void)leaf; (void)arg; ::new (o) stdrec<char>(1); }
 // 1 direct storage, no mutex
 using t_direct = allocator_adapter<rec>;
 TRAITS(direct, t_direct)
